@@ -476,7 +476,7 @@ def token_mass_guess(tok):
 
 
 ARCHETYPES = ["homo", "random", "block", "alternating", "stepgrowth", "star", "graft", "hyper", "endinit2", "prefix_suffix", "connector",
-              "multibond", "dollar_homo", "listweights"]
+              "multibond", "dollar_homo", "listweights", "leftlist", "mixedorder"]
 
 
 def rand_molecule(rnd, archetype=None, small=True, families=None, palette=None, units=(1, 8)):
@@ -579,6 +579,48 @@ def rand_molecule(rnd, archetype=None, small=True, families=None, palette=None, 
         sc = make_token(rnd, [DescT(">", 2), DescT("<", 2)], n_atoms=rnd.randint(1, 4), palette=pal)
         ends = [_end(rnd, DescT("<", 1)), _end(rnd, DescT(">", 1)), _end(rnd, DescT(">", 2)), _end(rnd, DescT("<", 2))]
         st = StochT(None, [bb, bb2, sc], ends, None, dist_for([bb, bb2, sc]), lay())
+        return MolT([st], None, a)
+    if a == "leftlist":
+        # the left terminal carries a transition list (sum != 1): the prefix's open descriptor takes it over and the first partner is drawn
+        # by the list; two units A(<,>) B(<,>) : slots A.< A.> B.< B.>
+        wA = spell(rnd, rnd.choice([3.0, 2.0, 7.0]))
+        wB = spell(rnd, rnd.choice([1.0, 0.5, 0.0]))
+        A = _unit(rnd, D("<"), D(">"), palette=pal, lead_p=1.0)
+        B = _unit(rnd, D("<", _w(rnd, 0.4)), D(">"), palette=pal, lead_p=1.0)
+        for _ in range(40):
+            render_token(A), render_token(B)
+            if [d.sym for d, _, _ in A.descs] == ["<", ">"] and [d.sym for d, _, _ in B.descs] == ["<", ">"]:
+                break
+            A = _unit(rnd, D("<"), D(">"), palette=pal, lead_p=1.0)
+            B = _unit(rnd, D("<", _w(rnd, 0.4)), D(">"), palette=pal, lead_p=1.0)
+        else:
+            return rand_molecule(rnd, "prefix_suffix", small, families, palette, units)
+        left = DescT(">", did, ("l", [wA, "0", wB, "0"]), ws(rnd, 0.2))
+        st = StochT(left, [A, B], [], DescT("<", did), dist_for([A, B]), lay())
+        elems = [_plain(rnd, palette=pal), st]
+        if rnd.random() < 0.5:
+            # a second object directly behind the first, also with a listed left terminal
+            C = _unit(rnd, D("<"), D(">"), palette=pal)
+            left2 = DescT(">", did, ("l", [spell(rnd, rnd.choice([2.0, 10.0])), "0"] if [d.sym for d, _, _ in (render_token(C), C)[1].descs] == ["<", ">"] else ["0", spell(rnd, 2.0)]), "")
+            elems.append(StochT(left2, [C], [], DescT("<", did), dist_for([C]), lay()))
+        elems.append(_plain(rnd, palette=pal))
+        return MolT(elems, None, a)
+    if a == "mixedorder":
+        # a branched unit whose descriptors prescribe different bond orders: several open descriptors of different order coexist
+        o = rnd.choice([2, 2, 3])
+        pal2 = [("C", 4, False)] * 6 + [("N", 3, False), ("O", 2, False)]
+        for _ in range(30):
+            try:
+                unit = make_token(rnd, [D("$"), D("$"), D("$")], n_atoms=rnd.randint(3, 6), palette=pal2, orders=[o, 1, 1], multi_p=0.0, ring_p=0.0)
+                unit2 = make_token(rnd, [D("$"), D("$")], n_atoms=rnd.randint(2, 4), palette=pal2, orders=[o, 1], multi_p=0.0, ring_p=0.0)
+                e1 = make_token(rnd, [D("$")], n_atoms=rnd.randint(1, 3), palette=pal2, orders=[o], multi_p=0.0, ring_p=0.0)
+                e2 = make_token(rnd, [D("$")], n_atoms=rnd.randint(1, 3), palette=pal2, orders=[1], multi_p=0.0, ring_p=0.0)
+                break
+            except RuntimeError:
+                continue
+        else:
+            return rand_molecule(rnd, "multibond", small, families, palette, units)
+        st = StochT(None, [unit, unit2], [e1, e2], None, dist_for([unit, unit2]), lay())
         return MolT([st], None, a)
     if a == "multibond":
         o = rnd.choice([2, 2, 3])
